@@ -21,3 +21,8 @@
 package locking
 
 func verifGoid() int64 { return verifGoidSlow() }
+
+// no frame pointer walk on this architecture: the critical-section monitor sees no frames and reports nothing
+func verifWalk(skip int, st *verifStack) { st.n = 0 }
+
+var verifFPOK = false
